@@ -226,6 +226,18 @@ def main():
     tier = a.tier if a.tier in ('quick', 'thorough') else 'quick'
     seed = int(os.environ.get('VERIF_SEED', '0') or 0)
     pid = a.pid
+    # whole-check wall-clock limit (a change to the implementation may make a call that the harness makes in-process never return): exit 2, which is
+    # neither "held" nor a violation.  VERIF_LIMIT_S overrides.
+    limit = float(os.environ.get('VERIF_LIMIT_S', '') or (2400 if tier == 'quick' else 14400))
+
+    def out_of_time():
+        sys.stdout.write('TIMEOUT property=%s: the %s check did not finish within %d s (no verdict)\n' % (pid, tier, limit))
+        sys.stdout.flush()
+        os._exit(2)
+    import threading
+    tm = threading.Timer(limit, out_of_time)
+    tm.daemon = True
+    tm.start()
     ctx = core.Ctx(pid, tier, seed)
     os.makedirs(os.path.join(VERIF, 'evidence'), exist_ok=True)
     os.makedirs(os.path.join(VERIF, 'replays'), exist_ok=True)
